@@ -4,6 +4,8 @@ import Dmn.Lemmas.LexerProgress
 import Dmn.Lemmas.LexerNextChar
 import Dmn.Lemmas.EvalNoPanic
 import Dmn.Lemmas.TemporalMachineIdeal
+import Dmn.Model.ScopeCell
+import Dmn.Lemmas.ScopeCell
 
 /-!
 # C05 (parser side) — FEEL parsing is total
@@ -368,3 +370,50 @@ theorem temporal_aux_no_panic (m : IntMode) :
 example : zoneOffset .checked true 14 59 (some 59) = .ok (some (-53999)) := rfl
 
 end Dmn.TemporalMachine
+
+/-! ## `Scope` (feel/src/scope.rs): the `RefCell` borrows are the only panic sites
+
+Model: Dmn/Model/ScopeCell.lean — the stack of contexts behind a `RefCell`, every operation of
+scope.rs:104-159 with its `borrow_mut()`; the panic of the model is `BorrowMutError`. -/
+
+namespace Dmn.ScopeCell
+
+/-- Every operation of `Scope`, called while no borrow of its cell is alive, returns — for every stack
+of contexts, the empty one (`Scope::new()`) included, every name, every path — and leaves the cell
+unborrowed. -/
+theorem scope_op_no_panic (c : Cell) (h : c.borrowed = false) (op : Op) :
+    ∃ a c', exec c op = .ok a c' ∧ c'.borrowed = false := by
+  cases op <;> (simp only [exec]; exact ⟨_, _, withBorrow_ok c h _, rfl⟩)
+
+/-- non-vacuity: the empty stack answers, and the qualified name `a.c` in `{a: {b: 1}}` (first
+segment bound, tail unresolved — the input class of the seeded change C05-15) has no value -/
+example : (match exec { contexts := [] } .pop with | .ok (.ctx none) c => c.contexts.length == 0 | _ => false) = true ∧
+    (match exec { contexts := [] } (.setEntry "x" (.num 1)) with | .ok .unit c => c.contexts.length == 0 | _ => false) = true ∧
+    (match exec { contexts := [[("a", .ctx [("b", .num 1)])]] } (.searchDeep ["a", "c"]) with
+      | .ok (.val none) _ => true | _ => false) = true ∧
+    (match exec { contexts := [[("a", .ctx [("b", .num 1)])]] } (.searchDeep ["a", "b"]) with
+      | .ok (.val (some (.num 1))) _ => true | _ => false) = true := by
+  decide
+
+/-- Any sequence of operations, from any unborrowed cell, runs to its end without a panic. -/
+theorem scope_ops_no_panic (ops : List Op) (c : Cell) (h : c.borrowed = false) :
+    ∃ c', execAll c ops = some c' ∧ c'.borrowed = false := by
+  induction ops generalizing c with
+  | nil => exact ⟨c, rfl, h⟩
+  | cons op ops ih =>
+    obtain ⟨a, c1, h1, h2⟩ := scope_op_no_panic c h op
+    obtain ⟨c', h3, h4⟩ := ih c1 h2
+    exact ⟨c', by simp only [execAll, h1]; exact h3, h4⟩
+
+/-- Sensitivity: an operation of the same scope called while the borrow of `search_deep` is alive
+panics — for every inner operation, as soon as the path does not resolve (the seeded change C05-15:
+`get_entry` as a fallback inside the loop; found by the family `qualified-names`). -/
+theorem scope_reentrant_borrow_panics (c : Cell) (h : c.borrowed = false) (names : List String) (inner : Op)
+    (hnone : searchDeepIn c.contexts names = none) :
+    searchDeepThenInside c names inner = .panic := by
+  cases inner <;> simp [searchDeepThenInside, h, hnone, exec, withBorrow]
+
+example : searchDeepIn [[("a", .ctx [("b", .num 1)])]] ["a", "c"] = none := by decide
+
+end Dmn.ScopeCell
+
